@@ -144,3 +144,15 @@ Theorem C19_merge_into_empty_equal :
     total_count t' = total_count (run_hops h0 ops).
 Proof. exact reach_merge_into_empty_equal. Qed.
 Print Assumptions C19_merge_into_empty_equal.
+
+(* window.go: WindowedHistogram.Merge returns a histogram whose counts and TotalCount are the sums over all
+   windows (nothing dropped, no panic), for windows that are arbitrary reachable histograms of one shape *)
+Theorem C19_window_merge_total :
+  forall lo hi sig h0, shape_ok lo hi sig -> new_hist lo hi sig = Ok h0 ->
+  forall idx opss mops, Forall ops_ok opss -> ops_ok mops -> sum_totals (map (run_hops h0) opss) < 2 ^ 63 ->
+  exists w', w_merge (mkW idx (map (run_hops h0) opss) (run_hops h0 mops)) = Ok w' /\
+    w_h w' = map (run_hops h0) opss /\ w_idx w' = idx /\
+    h_total (w_m w') = sum_totals (map (run_hops h0) opss) /\
+    (forall i, h_counts (w_m w') i = sum_counts (map (run_hops h0) opss) i).
+Proof. exact window_merge_total. Qed.
+Print Assumptions C19_window_merge_total.
